@@ -1,3 +1,4 @@
+import collections
 import datetime
 import decimal
 import os
@@ -88,7 +89,13 @@ class SQLDumper(DumperBase):
                 actions.setdefault(field['name'], []).extend(OBJECT_FIXERS[dialect])
 
         for row in resource:
+            # The DB gets a converted copy; the row itself continues downstream as it came
+            self.passed_rows.append(row)
+            row = dict(row)
             for name, action_list in actions.items():
+                if row.get(name) is None:
+                    # null is null, not the JSON text 'null'
+                    continue
                 for action in action_list:
                     row[name] = action(row.get(name))
 
@@ -126,6 +133,7 @@ class SQLDumper(DumperBase):
                 update_keys = converted_resource.get('update_keys')
                 if update_keys is None:
                     update_keys = schema_descriptor.get('primaryKey', [])
+            self.passed_rows = collections.deque()
             logging.info('Writing to DB %s -> %s (mode=%s, keys=%s)',
                          resource_name, table_name, mode, update_keys)
             return map(self.get_output_row,
@@ -140,7 +148,9 @@ class SQLDumper(DumperBase):
                        ))
 
     def get_output_row(self, written):
-        row, updated, updated_id = written.row, written.updated, written.updated_id
+        updated, updated_id = written.updated, written.updated_id
+        # rows are written in the order they came in
+        row = self.passed_rows.popleft()
         if self.updated_column:
             row[self.updated_column] = updated
         if self.updated_id_column:
